@@ -104,6 +104,7 @@ func Harness_C13_cell_through_transport_pairs_T() {
 	t1 := verifPick("t1", 0, n-1)
 	t2 := verifPick("t2", 0, n-1)
 	first := verifPick("share-before-store", 0, 1) == 1
+	c13StringData()
 	w := df.VerifBuildFlowProgram2(0, first, []int{t1, t2}, []int{1, 0})
 	c13Check(w)
 }
